@@ -38,14 +38,16 @@ Definition art_eqb (a b : artifact) : bool :=
   | _, _ => false
   end.
 
-(* the harness deletes every file called signac_statepoint.json below the exported directory *)
-Definition strip_art (a : artifact) : artifact :=
+(* the harness deletes the state point file at the root of every exported job directory *)
+Definition strip_art (ds : list str) (a : artifact) : artifact :=
   match a with
-  | ADir f => ADir (filter (fun e => negb (str_eqb (last (fst e) []) FN_SP && negb (is_none (snd e)))) f)
+  | ADir f =>
+      let roots := List.map (fun d => TARGET ++ (let n := normpath d in if str_eqb n dot then [] else split 47 n) ++ [FN_SP]) ds in
+      ADir (filter (fun e => negb (existsb (fpath_eqb (fst e)) roots && negb (is_none (snd e)))) f)
   | _ => a
   end.
 
-Definition import_input (c : case_C16) : artifact := if c_strip c then strip_art (x_art c) else x_art c.
+Definition import_input (c : case_C16) : artifact := if c_strip c then strip_art (x_map c) (x_art c) else x_art c.
 
 Definition run_export (c : case_C16) : export_out := export_model (c_oracle c) (c_jobs c) (c_kind c) (c_path c).
 Definition run_import (c : case_C16) : import_out :=
@@ -191,15 +193,15 @@ Definition cls_F20 (c : case_C16) : bool :=
   | Some ds => exists_pair (fun a b => negb (str_eqb a b) && negb (raw_nested a b) && loc_clash a b) ds
   | None => false
   end.
-(* F6: zip target, one job's member root is a string prefix of another's without being a directory prefix *)
+(* F6: zip target, and some member name starts with a job's root string without lying below that
+   root ('a/10/f' vs root 'a/1'; 'signac_statepoint.json' vs root 's') *)
 Definition cls_F6 (c : case_C16) : bool :=
-  match c_kind c, model_paths c with
-  | KZip, Some ds =>
-      let roots := List.map zip_arcname ds in
-      negb (pairwise (fun a b => str_eqb a b
-                                 || negb ((startswith b a && negb (is_prefix (split 47 a) (split 47 b)))
-                                          || (startswith a b && negb (is_prefix (split 47 b) (split 47 a))))) roots)
-  | _, _ => false
+  match c_kind c, model_paths c, eo_art (run_export c) with
+  | KZip, Some ds, AZip ms =>
+      existsb (fun r => negb (is_empty r) && negb (str_eqb r dot) &&
+                        existsb (fun m => startswith (fst m) r && negb (is_prefix (split 47 r) (split 47 (fst m)))) ms)
+              (List.map zip_arcname ds)
+  | _, _, _ => false
   end.
 (* F18: archive target and a job is exported to the archive root ('' / '.'): the analysers look for
    '/signac_statepoint.json' and never find it *)
@@ -227,7 +229,7 @@ Definition drop_empty_dirs (t : fs) : fs :=
                    || existsb (fun e' => negb (is_none (snd e')) && is_prefix (fst e) (fst e')) t) t.
 Definition model_round_dst (c : case_C16) : fs :=
   io_dst (import_model (c_oracle c) (c_schema c)
-            (let a := eo_art (run_export c) in if c_strip c then strip_art a else a) (dst_init (c_pre c))).
+            (let e := run_export c in if c_strip c then strip_art (eo_map e) (eo_art e) else eo_art e) (dst_init (c_pre c))).
 Definition expl_F21 (c : case_C16) : bool :=
   cls_F21 c && fs_eqb (drop_empty_dirs (model_round_dst c))
                       (drop_empty_dirs (expected_dst (c_pre c) (c_jobs c))).
